@@ -36,15 +36,16 @@ def gen_case(rng, maxops):
     outstanding = 0  # upper bound only; harness/model clamp
     for _ in range(rng.randint(1, maxops)):
         r = rng.random()
-        k = 0
-        if rng.random() < 0.4:
+        k, p = 0, 0
+        if rng.random() < 0.45:
             k = rng.randint(1, 3)
+            p = rng.choice([0, 1, 1, 2, 2, 3, 4])   # before which atomic access of the call the releaser runs
         if r < 0.4:
-            ops.append(f"acq {k} {_sizes(rng, n)}")
+            ops.append(f"acq {k} {p} {_sizes(rng, n)}")
         elif r < 0.65:
             q = _sizes(rng, n)
             m = rng.randint(0 if rng.random() < 0.05 else 1, max(1, q)) if q > 0 else 0
-            ops.append(f"upto {k} {min(m, q)} {q}")
+            ops.append(f"upto {k} {p} {min(m, q)} {q}")
         else:
             ops.append("rel")
     return Case(ops, {"n": n})
@@ -54,12 +55,12 @@ def exhaustive_cases(n, depth):
     """all op sequences of the given length over a ring of n bytes (sizes 1..n+1, k in 0..2)"""
     alphabet = ["rel"]
     for q in range(1, n + 2):
-        for k in (0, 1, 2):
-            alphabet.append(f"acq {k} {q}")
-    for q in range(1, n + 1):
-        for m in range(1, q + 1):
-            for k in (0, 1):
-                alphabet.append(f"upto {k} {m} {q}")
+        for (k, p) in ((0, 0), (1, 1), (1, 2), (2, 1), (2, 3)):
+            alphabet.append(f"acq {k} {p} {q}")
+    for q in range(1, n + 2):
+        for m in range(1, min(q, n) + 1):
+            for (k, p) in ((0, 0), (1, 1), (1, 2)):
+                alphabet.append(f"upto {k} {p} {m} {q}")
     out = []
     def rec(prefix, d):
         if d == 0:
@@ -105,15 +106,24 @@ def oracle(case, lines):
             continue
         if n is None:
             return []
-        k = int(t[1])
+        k, p = int(t[1]), int(t[2])
         if t[0] == "acq":
-            lo = hi = int(t[2])
+            lo = hi = int(t[3])
         else:
-            lo, hi = int(t[2]), int(t[3])
-        before = list(out)
-        for _ in range(k if lo > 0 and hi > 0 else 0):  # argument check precedes the loads
-            if out:
-                out.pop(0)
+            lo, hi = int(t[3]), int(t[4])
+        valid_args = lo > 0 and hi > 0
+        def do_rels():
+            for _ in range(k):
+                if out:
+                    out.pop(0)
+        if valid_args and p == 0:
+            do_rels()                     # the releaser ran before the acquirer's first load
+        seen = list(out)                  # what was outstanding when the acquirer sampled the tail
+        if valid_args and p > 0:
+            do_rels()
+        l = nxt()
+        if l is None or not l.startswith("W ev="):
+            errs.append(f"missing event line: {l}"); break
         l = nxt()
         if l is None:
             errs.append("missing output"); break
@@ -121,10 +131,8 @@ def oracle(case, lines):
             ln = int(l.split("len=")[1])
             w = nxt()
             off = int(w.split("off=")[1])
-            mon = None
             if li < len(lines) and lines[li].startswith("P MONITOR"):
-                mon = nxt()
-                errs.append("harness monitor: " + mon)
+                errs.append("harness monitor: " + nxt())
             if not (lo <= ln <= hi) or ln == 0:
                 errs.append(f"{op}: returned length {ln} not in [{lo},{hi}]")
             if off + ln > n:
@@ -134,9 +142,11 @@ def oracle(case, lines):
                     errs.append(f"{op}: buffer [{off},{off+ln}) overlaps outstanding [{o2},{o2+l2})")
             out.append((off, ln))
         else:
-            # failure: when nothing was outstanding (before the call) any request <= ring must succeed
-            if not before and lo >= 1 and lo <= n and hi >= lo:
+            # failure: when nothing was outstanding at the tail load any request <= ring must succeed
+            if not seen and valid_args and lo <= n and hi >= lo:
                 errs.append(f"{op}: refused although nothing outstanding and minimum {lo} <= ring {n}")
+            if not valid_args:
+                do_rels()
         l = nxt()
         if l != f"P outstanding={len(out)}":
             errs.append(f"outstanding count: {l} expected {len(out)}")
